@@ -8,7 +8,7 @@ from debian_inspector.version import Version
 ID = 'C02'
 LEVEL = 'proof'
 THEOREMS = [
-    ('DebInspector.Thm.C02', ['Props.C02.cmp_refl', 'Props.C02.cmp_swap', 'Props.C02.cmp_trans_le', 'Props.C02.cmp_trans_lt',
+    ('DebInspector.Thm.C02', ['Props.C02.sound', 'Props.C02.holdsFull_fullOf', 'Props.C02.firstMax_extremal', 'Props.C02.sorted_adjacent', 'Props.C02.cmp_refl', 'Props.C02.cmp_swap', 'Props.C02.cmp_trans_le', 'Props.C02.cmp_trans_lt',
                               'Props.C02.cmp_values', 'Props.C02.ops_agree', 'Props.C02.eq_imp_cmp_zero',
                               'Props.C02.stableSort_perm', 'Props.C02.stableSort_sorted']),
     ('DebInspector.Tie.VersionTables', ['Tie.VersionTables.rank_iso', 'Tie.VersionTables.tableOK']),
@@ -23,9 +23,12 @@ TRUSTED = [
 ASSUMPTIONS = ['inputs are lists of str objects; lists with a rejected string are outside the property']
 RULE = ('lists of 0-6 versions built around order-equal classes (1.0, 1.00, 0:1.0, 1.0-0) and their neighbours (~, letter, + appended; '
         'epoch +-1), in random order; all triples of a fixed 14-version pool. non-trivial = list accepted, >= 2 elements, not all textually equal')
-TECHNIQUE = ('Lean 4 theorems: padded-lexicographic comparison over a total preorder is a total preorder, instantiated for the model; '
+TECHNIQUE = ('Lean 4 theorem Props.C02.sound: for every list of strings the whole observation of the model (matrix, rich comparisons, seven operators, sorted twice, max, min) satisfies every clause; '
+             'padded-lexicographic comparison over a total preorder is a total preorder, instantiated for the model; '
              'operator table by decide; stable sort lemmas; + correspondence on classes of order-equal versions')
-LEVEL_TEXT = ('For all accepted version strings (any length): compare is reflexive, compare(b,a) = -compare(a,b), transitive including '
+LEVEL_TEXT = ('Props.C02.sound: for every list of strings (any number, any length) the observation the model makes through the whole API - the matrix of compare_versions, <, <=, >, >=, ==, != and the seven constraint operators on every ordered pair, '
+              'sorted() of the objects and by key, max and min - satisfies every clause of the property as written in Props.C02.holdsFull (holdsFull_fullOf for any total-preorder table; sorted_adjacent: the stable sort is non-decreasing; firstMax_extremal: the running extremum is extremal). '
+              'In detail, for all accepted version strings (any length): compare is reflexive, compare(b,a) = -compare(a,b), transitive including '
               'through order-equal versions (Props.C02.cmp_refl/cmp_swap/cmp_trans_le/cmp_trans_lt, from the generic lemma that padded '
               'lexicographic comparison over a total preorder is a total preorder); the seven constraint operators and the rich '
               'comparisons are the stated functions of the three-way result (ops_agree, by decide over the regenerated table); == implies '
@@ -33,8 +36,7 @@ LEVEL_TEXT = ('For all accepted version strings (any length): compare is reflexi
               'correspondence on the full observation (matrix, 13 operators per pair, sorted/sorted-by-key/max/min as index lists); '
               'holdsFull is evaluated on every implementation observation.')
 LEVEL_NOTE = ('Trusted: Lean kernel; axioms propext, Classical.choice, Quot.sound only; CPython sorted/max/min and hash are not '
-              'modelled beyond the strict-weak-order precondition; the whole-observation statement holdsOn vs (model vs) is checked '
-              'by evaluation, the laws themselves are theorems.')
+              'modelled beyond the strict-weak-order precondition (the model sorts by stable insertion and takes the first extremum, which is what correspondence compares with CPython).')
 
 POOL = ['1.0', '1.00', '0:1.0', '1.0-0', '1.0~', '1.0~~', '1.0a', '1.0+', '1.0+b1', '1:0.5', '1.0-1', '1.0-0~', '2', '01:0.5']
 
